@@ -90,7 +90,7 @@ func init() {
 			"the generator's gap table is the definition of 'where PHP allows trivia'",
 			"structure = kinds, roles, order and Value bytes (tokens, free-floating tokens and positions excluded)",
 		},
-		Plan: func(p core.Params) int { return p.Pick(8000, 300000) },
+		Plan: func(p core.Params) int { return p.Pick(30000, 300000) },
 		Run:  func(c *core.Ctx, idx int) { c08Case(c, idx) },
 		RunWitness: func(c *core.Ctx, w core.Witness) {
 			base := []byte(w.Cfg["base"])
